@@ -766,8 +766,8 @@ static void scenarios(std::vector<hm::Scenario>& out) {
             hm::Scenario sc;
             sc.name = std::string("epoch/coarse/") + wn[p.w] + "-vs-" + rn[p.r] + (third != 0 ? "+third" : "");
             sc.sigclass = std::string("epoch:") + wn[p.w] + "-vs-" + rn[p.r];
-            sc.bound_quick = third != 0 ? 2 : 3;
-            sc.bound_thorough = third != 0 ? 3 : 4;
+            sc.bound_quick = 2;
+            sc.bound_thorough = (p.quick && third == 0) ? 3 : 2;
             sc.quick = p.quick && third == 0;
             sc.cls_mask = (1u << ykmc::C_SESSION) | (1u << ykmc::C_EPOCH) | (1u << ykmc::C_GCQ) | (1u << ykmc::C_STOP) | (1u << ykmc::C_HARNESS);
             Cfg c;
